@@ -249,6 +249,7 @@ class KaniResult:
         self.symex_s = 0.0
         self.wall_s = 0.0
         self.vccs = (0, 0)
+        self.steps = 0
         self.log = ""
         self.note = ""
         self.stubs = []
@@ -273,6 +274,9 @@ class KaniResult:
         m = re.search(r"Runtime Symex: ([\d.]+)s", out)
         if m:
             self.symex_s = float(m.group(1))
+        m = re.search(r"size of program expression: (\d+) steps", out)
+        if m:
+            self.steps = int(m.group(1))
         m = re.search(r"Generated (\d+) VCC\(s\), (\d+) remaining after simplification", out)
         if m:
             self.vccs = (int(m.group(1)), int(m.group(2)))
